@@ -262,6 +262,39 @@ pub fn family(name: &str, tier: Tier) -> Vec<Case> {
             s.tasks = vec![echo_task(2000, 0)];
             out.push(Case { scn: s, menu: menu_tls(), k: 1, extra: vec![], expect: Expect::Nothing, injects: vec![], differential: false, first_index: 0 });
         }
+        // ------------------------------------------------------------------ MIGRATE: rebinding, connection-id rotation
+        "migrate" => {
+            for limit in [2u64, 3, 4] {
+                let mut s = Scenario::base(&format!("migrate/rebind-echo-8000-cidlimit{}", limit));
+                // real TLS: after a rebind the server emits bursts of >128 small packets; a packet delayed
+                // past such a burst reconstructs to a wrong packet number, which only the AEAD rejects -
+                // with null TLS it would be accepted (an artefact of running without integrity protection)
+                s.tls = Tls::S2n;
+                s.client.active_cids = Some(limit);
+                s.server.active_cids = Some(limit);
+                s.tasks = vec![vec![Op::OpenBidi, Op::Write(3000, 0), Op::Sleep(120), Op::Write(3000, 0), Op::Sleep(120), Op::Write(2000, 0), Op::Finish, Op::AwaitReader]];
+                s.horizon_ms = 120_000;
+                // RFC 9000 9: no migration before the handshake is confirmed - a client whose address changes
+                // mid-handshake legitimately fails to connect, so deviations start after the handshake
+                out.push(Case { scn: s, menu: vec![Action::RebindClient, Action::Drop, Action::Delay(3)], k: if quick { 1 } else { 2 }, extra: vec![], expect: Expect::Complete, injects: vec![], differential: false, first_index: 10 });
+            }
+            // connection-id expiry: the stock minimum lifetime (60 s) in a 150 s keep-alive scenario
+            let mut s = Scenario::base("migrate/rotation-60s");
+            s.tls = Tls::S2n;
+            s.cid_lifetime_ms = Some(60_000);
+            s.client.idle_ms = Some(300_000);
+            s.server.idle_ms = Some(300_000);
+            let mut ops = vec![Op::KeepAlive(true), Op::OpenBidi];
+            for _ in 0..8 {
+                ops.push(Op::Write(200, 0));
+                ops.push(Op::Sleep(20_000));
+            }
+            ops.push(Op::Finish);
+            ops.push(Op::AwaitReader);
+            s.tasks = vec![ops];
+            s.horizon_ms = 400_000;
+            out.push(Case { scn: s, menu: vec![Action::RebindClient, Action::Drop], k: 1, extra: vec![], expect: Expect::Complete, injects: vec![], differential: false, first_index: 10 });
+        }
         // ------------------------------------------------------------------ STRAY: datagrams for no connection
         "stray" => {
             // every size 1..=1400 of four kinds of stray datagrams, spread over several runs; each comes
@@ -391,6 +424,7 @@ pub fn property(p: &str) -> Option<PropertySpec> {
         "C09" => spec(vec!["loss"]),
         "C10" => spec(vec!["sendgate"]),
         "C11" => Some(PropertySpec { families: vec!["data", "live", "flow", "lifecycle", "hs", "stray"], monitors: vec!["amp", "stray"] }),
+        "C13" => Some(PropertySpec { families: vec!["migrate"], monitors: vec!["cid", "data", "live"] }),
         "C06" => Some(PropertySpec { families: vec!["forge"], monitors: vec!["auth", "ack", "data", "live"] }),
         "C12" => spec(vec!["txcons"]),
         "C15" => Some(PropertySpec { families: vec!["keyup"], monitors: vec!["keyup", "data", "live"] }),
@@ -424,6 +458,7 @@ pub fn run_monitors(names: &[String], case: &Case, r: &Record, only_finite_fault
             "sendgate" => monitors::mon_sendgate(&case.scn, r, &mut out),
             "keyup" => monitors::mon_keyup(&case.scn, r, &mut out),
             "stray" => monitors::mon_stray(&case.scn, r, &mut out),
+            "cid" => monitors::mon_cid(&case.scn, r, &mut out),
             "auth" => monitors::mon_auth(&case.scn, r, &mut out),
             other => panic!("unknown monitor {}", other),
         }
